@@ -3,7 +3,7 @@
 registered check): for every claimed property, compute the trace digests of N
 seeded runs three times in fresh interpreters - PYTHONHASHSEED 0, 12345 and 999,
 the last two with a different number of concurrent processes - and diff them.
-Writes evidence/_determinism.json.
+Writes reports/determinism.json.
 
 usage: tools/determinism.py [--n 400] [--seed 3] [C01 C03 ...]
 """
@@ -73,7 +73,7 @@ def main():
             prop, m, len(set(a.values())), len(diff), time.time() - t0))
         sys.stdout.flush()
     report["mismatches_total"] = bad
-    with open(os.path.join(VERIF, "evidence", "_determinism.json"), "w") as f:
+    with open(os.path.join(VERIF, "reports", "determinism.json"), "w") as f:
         json.dump(report, f, indent=1)
     print("total mismatches:", bad)
     return 1 if bad else 0
